@@ -195,7 +195,7 @@ def _param_entry(ret_text, expected_builder):
     sf = S.Symbol('sf', real=True)
     c0, c1 = S.symbols('c0 c1')
     env = {'I': S.I, 'pi': S.pi, 'f': f, 'sf': sf, 'const1': S.Integer(1), 'const': S.Integer(1), 'exp': S.exp,
-           'Heaviside': S.Function('HS'), 'c0': c0, 'c1': c1, 's': 2 * S.pi * S.I / c1}
+           'Heaviside': S.Function('HS'), 'sign': S.Function('SGN'), 'c0': c0, 'c1': c1, 's': 2 * S.pi * S.I / c1}
     got = eval(compile(ast.parse(ret_text, mode='eval'), '<ret>', 'eval'), {'__builtins__': {}}, env)
     for (v, use_sf) in ((sf, True), (f, False)):
         if S.simplify(got - expected_builder(S, v, c0, c1, env)) == 0:
@@ -212,7 +212,7 @@ def parse_table(repo):
             for fn in node.body:
                 if isinstance(fn, ast.FunctionDef) and fn.name == 'term':
                     term_fn = fn
-    info = {'entries': [], 'unparsed': [], 'outside': [], 'expu_uses_sf': None, 'cpole_uses_sf': None, 'fingerprints': {}}
+    info = {'entries': [], 'unparsed': [], 'outside': [], 'expu_uses_sf': None, 'cpole_uses_sf': None, 'cpole_three_way': False, 'fingerprints': {}}
     if term_fn is None:
         info['unparsed'].append('FourierTransformer.term not found')
         return info
@@ -256,8 +256,33 @@ def parse_table(repo):
                 asg = [ast.unparse(s) for s in inner[0].body if isinstance(s, ast.Assign)]
                 if 's = 2 * pi * I / c1' not in asg:
                     ret = None
+            # optional three-way form (after the half-plane fix):
+            #   pole_imag = im(-c0 / c1); if pole_imag.is_negative: return -s*exp(c0*v*s)*Heaviside(v)
+            #   if pole_imag.is_zero: return -s/2*exp(c0*v*s)*sign(v);  return s*exp(c0*v*s)*Heaviside(-v)
+            info['cpole_three_way'] = False
+            if inner:
+                sub = [x for x in inner[0].body if isinstance(x, ast.If)]
+                if sub:
+                    tests = [ast.unparse(x.test) for x in sub]
+                    rets2 = [ast.unparse(x.body[0].value) if len(x.body) == 1 and isinstance(x.body[0], ast.Return) else None for x in sub]
+                    ok3 = (tests == ['pole_imag.is_negative', 'pole_imag.is_zero'] and None not in rets2
+                           and 'pole_imag = im(-c0 / c1)' in asg and all(not x.orelse for x in sub))
+                    if ok3:
+                        try:
+                            u1 = _param_entry(rets2[0], lambda S, v, c0, c1, env: -env['s'] * S.exp(c0 * v * env['s']) * env['Heaviside'](v))
+                            u2 = _param_entry(rets2[1], lambda S, v, c0, c1, env: -env['s'] / 2 * S.exp(c0 * v * env['s']) * env['sign'](v))
+                            u0 = _param_entry(ret, lambda S, v, c0, c1, env: env['s'] * S.exp(c0 * v * env['s']) * env['Heaviside'](-v)) if ret else None
+                            ok3 = u0 is not None and u1 == u0 and u2 == u0
+                        except Exception:   # noqa
+                            ok3 = False
+                    if ok3:
+                        info['cpole_three_way'] = True
+                    else:
+                        ret = None
+                        info['unparsed'].append('cpole entry: nested branches not recognised')
             if ret is None:
-                info['unparsed'].append('cpole entry: shape not recognised')
+                if not any('cpole entry' in u for u in info['unparsed']):
+                    info['unparsed'].append('cpole entry: shape not recognised')
             else:
                 try:
                     info['cpole_uses_sf'] = _param_entry(
@@ -401,6 +426,8 @@ def generate(repo):
     L.append('def expuUsesSf : Option Bool := %s' % optb(info['expu_uses_sf']))
     L.append('/-- `1/(c1 t + c0)` entry returns s·exp(c0·v·s)·u(−v), s = 2πj/c1, with v = sf / f -/')
     L.append('def cpoleUsesSf : Option Bool := %s' % optb(info['cpole_uses_sf']))
+    L.append('/-- the `1/(c1 t + c0)` entry distinguishes the half plane of the pole (and takes the principal value for a real pole) -/')
+    L.append('def cpoleThreeWay : Bool := %s' % ('true' if info.get('cpole_three_way') else 'false'))
     L.append('/-- the similarity/shift/modulation statements of `term` have the modelled text -/')
     L.append('def theoremCodeAsModelled : Bool := %s' % ('true' if all(info['fingerprints'].values()) and info['fingerprints'] else 'false'))
     L.append('')
